@@ -92,6 +92,17 @@ class DriverMixin:
         if self.is_generator:
             self.assign_var(st, "_yielded", ty.empty_seq(rt0 := self.spec.T(c.returns)))
         self.oblige("pre-sat", st, z3.BoolVal(False), "vacuity", expect="sat")
+        # default values: callers that omit an argument are verified against the contract's `defaults`, so these must be the code's
+        a_ = ext.node.args
+        pos = a_.posonlyargs + a_.args
+        real_defaults = {p.arg: d for p, d in zip(pos[len(pos) - len(a_.defaults):], a_.defaults)}
+        real_defaults.update({p.arg: d for p, d in zip(a_.kwonlyargs, a_.kw_defaults) if d is not None})
+        for pname, dnode in real_defaults.items():
+            want = c.defaults.get(pname)
+            same = want is not None and ast.dump(ast.parse(want, mode="eval").body) == ast.dump(dnode)
+            if want is None and isinstance(dnode, ast.Attribute):
+                continue   # a module-level constant object (e.g. a default task handle): named in the contract's params only
+            self.oblige("signature(default of %s is %s)" % (pname, ast.unparse(dnode)), st, z3.BoolVal(bool(same)), "post")
         body = extract.strip_docstring(ext.node.body)
         outs = self.exec_block(body, st)
         rt = self.spec.T(c.returns)
